@@ -484,6 +484,28 @@ fn mutate_type(r: &mut Report, t: &XmlType, g: &mut Rng, sch: &HashMap<&'static 
         let mut d = doc.clone();
         d.insert_str(a + p, "<?pi x?>");
         same_if_accepted(r, t, if p == 0 || p == seg.len() { "pi-at-text-edge" } else { "pi-inside-text" }, d.as_bytes(), &bytes, &want);
+        // bytes that are not UTF-8 (a document is a sequence of characters): alone in the text, and together with a
+        // comment / PI / CDATA section that splits the text into pieces
+        {
+            let bad: &[u8] = *g.pick(&[&[0xffu8][..], &[0xc3], &[0xed, 0xa0, 0x80], &[0xc0, 0xaf], &[0xf8, 0x88, 0x80, 0x80, 0x80], &[0x80]]);
+            let mut d = doc.clone().into_bytes();
+            d.splice(a + p..a + p, bad.iter().copied());
+            must_refuse(r, t, "invalid-utf8-in-text", &d, &bytes);
+            for (op, split) in [("invalid-utf8-in-text/split-by-comment", &b"<!--c-->"[..]), ("invalid-utf8-in-text/split-by-pi", &b"<?pi x?>"[..]), ("invalid-utf8-in-text/split-by-cdata", &b"<![CDATA[x]]>"[..])] {
+                // the bad bytes before the split, after it, and at the far end of the text
+                for (ip, sp) in [(a + p, a + p), (a + seg.len(), a + p), (a, a + p)] {
+                    let mut d = doc.clone().into_bytes();
+                    if ip >= sp {
+                        d.splice(ip..ip, bad.iter().copied());
+                        d.splice(sp..sp, split.iter().copied());
+                    } else {
+                        d.splice(sp..sp, split.iter().copied());
+                        d.splice(ip..ip, bad.iter().copied());
+                    }
+                    must_refuse(r, t, op, &d, &bytes);
+                }
+            }
+        }
         // numeric character reference for one plain ASCII character
         let plain: Vec<usize> = pos.iter().copied().filter(|&i| i < seg.len() && seg.as_bytes()[i].is_ascii_alphanumeric()).collect();
         if !plain.is_empty() {
